@@ -8,6 +8,8 @@ import (
 	"fmt"
 	"math/big"
 
+	"github.com/gocql/gocql"
+
 	"gocqlverif/hlib"
 )
 
@@ -30,6 +32,39 @@ type Runner struct {
 	Matrix map[string]map[string]int
 	// retained: every decoded value handed back by Unmarshal is kept until the end of the run and read again
 	retained []retainedOut
+	// retainedEnc: every byte slice Marshal returned (the slice itself and a private copy)
+	retainedEnc []retainedEnc
+}
+
+type retainedEnc struct {
+	idx   int
+	slice []byte // the very slice gocql.Marshal returned
+	first []byte // private copy taken immediately
+}
+
+// perturb makes further Marshal calls after the one under test: two fresh values of the same CQL type, a map,
+// a list of blobs and a blob, in this goroutine; every eighth case also from a second goroutine.  The values
+// come from an auxiliary PRNG derived from the seed and the case index (the main stream is not disturbed).
+func (rn *Runner) perturb(pv int, t *Ty, idx int) {
+	run := func(salt uint64) {
+		aux := hlib.NewRng(rn.O.Seed*1000003 + uint64(idx)*7919 + salt)
+		for i := 0; i < 2; i++ {
+			DoMarshal(t.Info(byte(pv)), GenVal(aux, t, 0, true).Iface())
+		}
+		mt := &Ty{K: "map", Key: Native(gocql.TypeText), E: Native(gocql.TypeBigInt)}
+		mvv := VMapOf(TK("str"), TInt(I64, false), [][2]*Val{{VStr(false, randUTF8(aux)+"k"), VInt64(I64, false, aux.I64())}, {VStr(false, "z"), VInt64(I64, false, aux.I64())}}, false)
+		DoMarshal(mt.Info(byte(pv)), mvv.Iface())
+		lt := &Ty{K: "list", E: Native(gocql.TypeBlob)}
+		DoMarshal(lt.Info(byte(pv)), VSlice(TK("bytes"), []*Val{VBytes(false, aux.Bytes(1+aux.Intn(40))), VBytes(false, aux.Bytes(3))}).Iface())
+		DoMarshal(Native(gocql.TypeBlob).Info(byte(pv)), VBytes(false, aux.Bytes(1+aux.Intn(40))).Iface())
+	}
+	run(1)
+	if idx%8 == 0 {
+		done := make(chan struct{})
+		go func() { defer close(done); run(2) }()
+		<-done
+		run(3)
+	}
 }
 
 type retainedOut struct {
@@ -57,6 +92,17 @@ func (rn *Runner) Recheck() {
 			}
 		}
 	}
+	ebad := 0
+	for _, e := range rn.retainedEnc {
+		if !bytes.Equal(e.slice, e.first) {
+			ebad++
+			if ebad <= 5 {
+				rn.O.Violate(e.idx, "retained-marshal-output-changed", "", fmt.Sprintf("Marshal returned %x, at the end of the run the same slice holds %x", e.first, e.slice), nil)
+			}
+		}
+	}
+	rn.O.Extra["retained_marshal_outputs_rechecked"] = len(rn.retainedEnc)
+	rn.O.Extra["retained_marshal_outputs_changed"] = ebad
 	rn.O.Extra["retained_outputs_rechecked"] = len(rn.retained)
 	rn.O.Extra["retained_outputs_changed"] = bad
 }
@@ -365,10 +411,28 @@ func (c *CV) short() string {
 func (rn *Runner) MarshalCase(kind string, pv int, t *Ty, v *Val, specMonitor bool) ([]byte, int, int) {
 	o := rn.O
 	out, cls, msg := DoMarshal(t.Info(byte(pv)), v.Iface())
-	OrderMapLikeOutput(pv, t, v, out)
-	term := fmt.Sprintf("CMarshal %d %s %s %s", pv, t.Coq(), v.Coq(), MResCoq(out, cls))
+	// the private copy of what Marshal returned, taken before anything else is marshalled
+	var first []byte
+	if out != nil {
+		first = append([]byte{}, out...)
+	}
+	OrderMapLikeOutput(pv, t, v, first)
+	term := fmt.Sprintf("CMarshal %d %s %s %s", pv, t.Coq(), v.Coq(), MResCoq(first, cls))
 	idx := o.Case(kind, cls == ClsOk && len(out) > 0, term)
 	rn.Stat[fmt.Sprintf("marshal-class-%d", cls)]++
+	if cls == ClsOk && out != nil {
+		// outputs handed to the caller must not change afterwards: further Marshal calls (same type and others,
+		// same goroutine and concurrently), then the very slice Marshal returned is compared with the copy; it is
+		// kept and compared again at the end of the run.  Everything below (reference serializer, decoding for
+		// the round trip) uses the retained slice.
+		rn.perturb(pv, t, idx)
+		if !bytes.Equal(out, first) {
+			o.Violate(idx, "marshal-output-changed-by-later-marshal", "",
+				fmt.Sprintf("Marshal returned %x; after further Marshal calls the same slice holds %x", first, out),
+				map[string]string{"pv": fmt.Sprint(pv), "type": t.String(), "value": v.Coq()})
+		}
+		rn.retainedEnc = append(rn.retainedEnc, retainedEnc{idx, out, first})
+	}
 	if !specMonitor {
 		return out, cls, idx
 	}
@@ -947,6 +1011,136 @@ func (rn *Runner) RoundTrip(kind string, pv int, t *Ty, v *Val, targets []*GTy) 
 			if res.Z.Cmp(pv0.Z) != 0 {
 				o.Violate(idx, "same-integer-type-not-exact", "", fmt.Sprintf("%s -> %x -> %s", v.Coq(), out, res.Coq()), input)
 			}
+		}
+	}
+}
+
+// BigElementChecks: collection elements and counts at and above 2^15 on the 2-byte framing of protocol 1/2 (and,
+// for comparison, on protocol 3): reference-encoded, compared with Marshal's output, decoded and compared.
+// Monitor only (no Coq case: the terms would be hundreds of kilobytes); the boundary of the size fields is
+// covered on the Coq side by small truncated inputs (SizeFieldBoundaryCases).
+func (rn *Runner) BigElementChecks() {
+	o := rn.O
+	blob := Native(gocql.TypeBlob)
+	for _, pv := range []int{1, 2, 3} {
+		for _, n := range []int{32767, 32768, 40000, 65535} {
+			big := make([]byte, n)
+			for i := range big {
+				big[i] = byte(i*7 + n)
+			}
+			type tc struct {
+				t *Ty
+				v *Val
+				g *GTy
+			}
+			for _, c := range []tc{
+				{&Ty{K: "list", E: blob}, VSlice(TK("bytes"), []*Val{VBytes(false, []byte{1}), VBytes(false, big), VBytes(false, []byte{2, 3})}), TSlice(TK("bytes"))},
+				{&Ty{K: "map", Key: Native(gocql.TypeText), E: blob}, VMapOf(TK("str"), TK("bytes"), [][2]*Val{{VStr(false, "k"), VBytes(false, big)}}, false), TMapOf(TK("str"), TPtr(TK("bytes")))},
+			} {
+				o.Count("big-element-monitor")
+				cv, _, _ := Denote(c.t, c.v)
+				exp, ok := SpecEncode(pv, c.t, cv)
+				if !ok {
+					continue
+				}
+				input := map[string]string{"pv": fmt.Sprint(pv), "type": c.t.String(), "element-bytes": fmt.Sprint(n)}
+				out, cls, msg := DoMarshal(c.t.Info(byte(pv)), c.v.Iface())
+				if cls != ClsOk || !bytes.Equal(out, exp) {
+					o.Violate(-1, "not-the-specified-bytes", "", fmt.Sprintf("collection with an element of %d bytes: Marshal class %d (%s), %d bytes, first 8 %x; specification: %d bytes, first 8 %x", n, cls, msg, len(out), head8(out), len(exp), head8(exp)), input)
+				}
+				res, dcls, dmsg, _ := DoUnmarshal(c.t.Info(byte(pv)), exp, c.g)
+				if dcls != ClsOk {
+					o.Violate(-1, "unmarshal-rejects-specification-conformant encoding", "", fmt.Sprintf("collection with an element of %d bytes: %s", n, dmsg), input)
+					continue
+				}
+				dc, _, dok := DenoteDecoded(c.t, res)
+				if !dok || !cvMatch(cv, dc) {
+					o.Violate(-1, "decodes-to-a-different-value", "", fmt.Sprintf("collection with an element of %d bytes decoded to something else (element lengths %s)", n, lens(dc)), input)
+				}
+			}
+		}
+	}
+	// a list with 2^15 and more elements on the 2-byte framing (thorough tier only: 100 KB values)
+	if o.Tier == "thorough" {
+		for _, cnt := range []int{32768, 65535} {
+			items := make([]*Val, cnt)
+			for i := range items {
+				items[i] = VInt64(I8, false, int64(i%100))
+			}
+			t := &Ty{K: "list", E: Native(gocql.TypeTinyInt)}
+			v := VSlice(TInt(I8, false), items)
+			cv, _, _ := Denote(t, v)
+			exp, _ := SpecEncode(2, t, cv)
+			o.Count("big-count-monitor")
+			out, cls, _ := DoMarshal(t.Info(2), v.Iface())
+			if cls != ClsOk || !bytes.Equal(out, exp) {
+				o.Violate(-1, "not-the-specified-bytes", "", fmt.Sprintf("list of %d elements on protocol 2", cnt), nil)
+			}
+			res, dcls, dmsg, _ := DoUnmarshal(t.Info(2), exp, TSlice(TInt(I8, false)))
+			if dcls != ClsOk {
+				o.Violate(-1, "unmarshal-rejects-specification-conformant encoding", "", fmt.Sprintf("list of %d elements on protocol 2: %s", cnt, dmsg), nil)
+			} else if dc, _, dok := DenoteDecoded(t, res); !dok || !cvMatch(cv, dc) {
+				o.Violate(-1, "decodes-to-a-different-value", "", fmt.Sprintf("list of %d elements on protocol 2", cnt), nil)
+			}
+		}
+	}
+}
+
+func head8(b []byte) []byte {
+	if len(b) > 8 {
+		return b[:8]
+	}
+	return b
+}
+
+func lens(c *CV) string {
+	if c == nil {
+		return "null"
+	}
+	s := ""
+	for _, e := range c.L {
+		if e == nil {
+			s += "null "
+		} else {
+			s += fmt.Sprint(len(e.S)) + " "
+		}
+	}
+	for _, kv := range c.KV {
+		if kv[1] == nil {
+			s += "null "
+		} else {
+			s += fmt.Sprint(len(kv[1].S)) + " "
+		}
+	}
+	return s
+}
+
+// SizeFieldBoundaryCases: truncated collection values whose count / element size fields are 0x7fff, 0x8000,
+// 0xffff (2-byte framing) or 0x7fffffff, 0x80000000, 0xffffffff (4-byte framing): small correspondence cases
+// for the signedness of the size fields.
+func (rn *Runner) SizeFieldBoundaryCases() {
+	blob := Native(gocql.TypeBlob)
+	lt := &Ty{K: "list", E: blob}
+	mt := &Ty{K: "map", Key: blob, E: blob}
+	for _, pv := range []int{1, 2, 3, 4} {
+		var fields [][]byte
+		if pv <= 2 {
+			fields = [][]byte{{0x7f, 0xff}, {0x80, 0x00}, {0xff, 0xff}, {0x00, 0x01}}
+		} else {
+			fields = [][]byte{{0x7f, 0xff, 0xff, 0xff}, {0x80, 0, 0, 0}, {0xff, 0xff, 0xff, 0xff}, {0, 0, 0, 1}}
+		}
+		one := fields[3]
+		for _, f := range fields[:3] {
+			// count = f
+			rn.DecodeCase("unmarshal-size-field-boundary", pv, lt, append(append([]byte{}, f...), 1, 2, 3, 4, 5, 6, 7, 8), TSlice(TK("bytes")), nil, false, false, "")
+			// one element of size f, then a few bytes
+			d := append(append(append([]byte{}, one...), f...), 9, 9, 9)
+			rn.DecodeCase("unmarshal-size-field-boundary", pv, lt, d, TSlice(TPtr(TK("bytes"))), nil, false, false, "")
+			rn.DecodeCase("unmarshal-size-field-boundary", pv, lt, d, TArray(1, TK("bytes")), nil, false, false, "")
+			// map: one entry, key size f / value size f
+			rn.DecodeCase("unmarshal-size-field-boundary", pv, mt, append(append(append([]byte{}, one...), f...), 9, 9, 9, 9, 9, 9, 9, 9), TMapOf(TK("str"), TPtr(TK("bytes"))), nil, false, false, "")
+			dm := append(append(append(append([]byte{}, one...), one...), 7), f...)
+			rn.DecodeCase("unmarshal-size-field-boundary", pv, mt, append(dm, 9, 9, 9, 9), TMapOf(TK("str"), TPtr(TK("bytes"))), nil, false, false, "")
 		}
 	}
 }
